@@ -64,83 +64,83 @@ type ReplayInfo struct {
 
 // ReplayParam is a parameter in call order: basic (Value from Inputs[Name]) or pointer to struct (fields from Inputs).
 type ReplayParam struct {
-	Name    string
-	GoType  string // for basic parameters
-	Struct  string // struct type name for pointer-to-struct parameters
-	Fields  []string
+	Name   string
+	GoType string // for basic parameters
+	Struct string // struct type name for pointer-to-struct parameters
+	Fields []string
 }
 
 // Engine holds the loaded program and all contracts.
 type Engine struct {
-	Prog      *ssa.Program
-	Pkgs      map[string]*ssa.Package // by short name
-	Contracts map[string]*UnitSpec
-	SpecFuns  map[string]*SpecFun
-	Lemmas    map[string]*SpecFun
-	Axioms    []*Axiom
-	Consts    map[string]string
-	tids      typeIDs
-	Fset      *token.FileSet
-	Funcs     map[string]*ssa.Function // canonical name -> function
-	Preludes  []string                  // raw SMT preludes
-	GlobalGhosts map[string]string      // "$name" -> spec type
-	Guarded   []GuardDecl
-	Writers   []WritersDecl
-	GlobalFacts map[string]Expr
-	Local     map[string]map[string]*UnitSpec // contracts a package states about foreign callees (package -> callee -> spec)
+	Prog         *ssa.Program
+	Pkgs         map[string]*ssa.Package // by short name
+	Contracts    map[string]*UnitSpec
+	SpecFuns     map[string]*SpecFun
+	Lemmas       map[string]*SpecFun
+	Axioms       []*Axiom
+	Consts       map[string]string
+	tids         typeIDs
+	Fset         *token.FileSet
+	Funcs        map[string]*ssa.Function // canonical name -> function
+	Preludes     []string                 // raw SMT preludes
+	GlobalGhosts map[string]string        // "$name" -> spec type
+	Guarded      []GuardDecl
+	Writers      []WritersDecl
+	GlobalFacts  map[string]Expr
+	Local        map[string]map[string]*UnitSpec // contracts a package states about foreign callees (package -> callee -> spec)
 }
 
 // Unit is one verification run of a function against its contract.
 type Unit struct {
-	eng        *Engine
-	fn         *ssa.Function
-	spec       *UnitSpec
-	name       string
-	defs       *Defs
-	obls       []*Obligation
-	classSort  map[string]Sort
-	gens       map[string]Term
-	genCtr     int
-	allocCtr   int
-	allocBase  Term
-	cellCtr    int
-	Abstracted []string
-	AssumedUse map[string]bool
-	safe       map[string]bool
-	entry      *State
-	errors     []string
-	oblNames   map[string]int
-	inlineDepth int
+	eng          *Engine
+	fn           *ssa.Function
+	spec         *UnitSpec
+	name         string
+	defs         *Defs
+	obls         []*Obligation
+	classSort    map[string]Sort
+	gens         map[string]Term
+	genCtr       int
+	allocCtr     int
+	allocBase    Term
+	cellCtr      int
+	Abstracted   []string
+	AssumedUse   map[string]bool
+	safe         map[string]bool
+	entry        *State
+	errors       []string
+	oblNames     map[string]int
+	inlineDepth  int
 	usedSpecFuns map[string]bool
-	qctr       int
+	qctr         int
 	entryMeasure Term
-	LemmasUsed map[string]bool
-	axCache    map[*Axiom]axEntry
-	ghostTy    map[string]types.Type
-	events     map[int]havocEvent
-	topFrame   *Frame
-	cellFns    map[*Cell]Val
+	LemmasUsed   map[string]bool
+	axCache      map[*Axiom]axEntry
+	ghostTy      map[string]types.Type
+	events       map[int]havocEvent
+	topFrame     *Frame
+	cellFns      map[*Cell]Val
 }
 
 // Frame is the execution of one ssa.Function (the unit itself or an inlined closure).
 type Frame struct {
-	u       *Unit
-	fn      *ssa.Function
-	vals    map[ssa.Value]Val
-	env     []Val
-	params  []Val
-	top     bool
-	prefix  string // "" for top, "$1" etc. for inlined closures
-	loops   map[*ssa.BasicBlock]*loopInfo
-	loopOrd map[*ssa.BasicBlock]int
-	callOrd map[ssa.Instruction]string // anchor names "call X#k"
-	rets    []retState
-	rangeIt map[ssa.Value]*rangeIter
-	atSpecs map[string][]*AtSpec
-	curLoop []*loopInfo
-	siteOrd map[string]map[ssa.Instruction]int
+	u              *Unit
+	fn             *ssa.Function
+	vals           map[ssa.Value]Val
+	env            []Val
+	params         []Val
+	top            bool
+	prefix         string // "" for top, "$1" etc. for inlined closures
+	loops          map[*ssa.BasicBlock]*loopInfo
+	loopOrd        map[*ssa.BasicBlock]int
+	callOrd        map[ssa.Instruction]string // anchor names "call X#k"
+	rets           []retState
+	rangeIt        map[ssa.Value]*rangeIter
+	atSpecs        map[string][]*AtSpec
+	curLoop        []*loopInfo
+	siteOrd        map[string]map[ssa.Instruction]int
 	lastCallResult *Val
-	beforeArgs map[string]TV
+	beforeArgs     map[string]TV
 }
 
 type retState struct {
@@ -149,14 +149,14 @@ type retState struct {
 }
 
 type loopInfo struct {
-	head      *ssa.BasicBlock
-	body      map[*ssa.BasicBlock]bool
-	backs     []*ssa.BasicBlock
-	spec      *LoopSpec
-	ord       int
-	headState *State          // havoced state at header (for decreases)
-	phiHead   map[*ssa.Phi]Val // havoced phi values
-	measure   Term
+	head       *ssa.BasicBlock
+	body       map[*ssa.BasicBlock]bool
+	backs      []*ssa.BasicBlock
+	spec       *LoopSpec
+	ord        int
+	headState  *State           // havoced state at header (for decreases)
+	phiHead    map[*ssa.Phi]Val // havoced phi values
+	measure    Term
 	hasMeasure bool
 }
 
